@@ -413,6 +413,7 @@ func lemmaTypedGettersAgreeOnFound(st *SlimTrie, key string) (bool, bool, bool, 
 //@   loop 1 invariant len(path) <= int(eqID) && -1 <= rightPathLen && int(rightPathLen) <= len(path) && fresh(path)
 //@   loop 1 invariant (rID == -1 || (0 <= rID && int(rID) < nN(st))) && (rID != -1 ==> 0 <= rightPathLen)
 //@   loop 1 freshwrites E.Int
+//@   loop 1 invariant !fresh(ns.Inners.RankIndex) && !fresh(ns.NodeTypeBM.RankIndex) && !fresh(ns.ShortBM.RankIndex)
 //@   loop 1 decreases nN(st) - int(eqID)
 //@   after getNode#1 use at(qr.ithInner, eqID)
 //@   after getNode#1 assert qr.isInner == 1 ==> rank1(INW(st), qr.from) >= int(eqID)
@@ -494,7 +495,7 @@ func lemmaTypedGettersAgreeOnFound(st *SlimTrie, key string) (bool, bool, bool, 
 // addInner/newSlim: thin contracts that carry the step-length limit from the guard in newSlim to encStep
 // (a step is stored in 16 bits of 4-bit words whatever the node's word size).
 //@ func (*creator).addInner
-//@   property C08 C12
+//@   property C08 C12 C13
 //@   opt kinds=pre(setPrefix),frame
 //@   requires c != nil && c.option != nil && c.option.InnerPrefix != nil && prefixBitFrom <= prefixBitTo
 //@   requires !*c.option.InnerPrefix ==> (prefixBitTo - prefixBitFrom)/4 <= 65535
@@ -513,7 +514,7 @@ func lemmaTypedGettersAgreeOnFound(st *SlimTrie, key string) (bool, bool, bool, 
 //@   havoc runs after the last node was added; none of the claimed obligations of newSlim depends on it (bounded-checked through NewSlimTrie)
 
 //@ func newSlim
-//@   property C08 C12
+//@   property C08 C12 C13
 //@   opt kinds=pre(addInner)
 //@   requires opt != nil && opt.InnerPrefix != nil && opt.DedupValue != nil && opt.LeafPrefix != nil
 //@   requires len(keys) <= 100000000 && (bytesValues == nil || len(bytesValues) == len(keys))
@@ -539,6 +540,14 @@ func lemmaTypedGettersAgreeOnFound(st *SlimTrie, key string) (bool, bool, bool, 
 // and memory allocated in this call is written (in particular not buf). The content of the decoded message is
 // dependency behaviour (assumed contracts of pbcmpl/proto) and is bounded-checked.
 
+// initVars: the cached layout constants are exactly the ones wf_core (and with it every query proof) relies on.
+//@ func (*SlimTrie).initVars
+//@   property C01 C05 C10
+//@   requires st != nil && st.inner != nil && 0 <= nS(st) && nS(st) <= 64 && 0 <= nB(st) && nB(st) <= 4000000
+//@   modifies st.vars
+//@   ensures st.vars != nil && fresh(st.vars)
+//@   ensures int(st.vars.BigInnerOffset) == 240*nB(st) && int(st.vars.ShortMinusInner) == nS(st) - 17 && st.vars.ShortMask == mask(nS(st))
+
 //@ func (*SlimTrie).init
 //@   property C05 C07
 //@   assume-dep helper (initVars/initLevels); writes st.vars and st.levels only (frame decided by framecheck)
@@ -561,6 +570,27 @@ func lemmaTypedGettersAgreeOnFound(st *SlimTrie, key string) (bool, bool, bool, 
 //@   modifies st.inner, st.vars, st.levels
 //@   allocates
 //@   ensures fresh(st.inner)
+
+// The legacy conversion feeds the builder. Claimed here: normalizeOpt's result, and that both calls of
+// getStepBefore000510 satisfy its precondition (so every step handed on is in 0..262140, its postcondition). NOT claimed:
+// the precondition of addInner at this call site — it needs a quantified invariant over the queue of heap-allocated
+// elements that the solvers do not carry through the nested loops (the step bound itself is getStepBefore000510's
+// postcondition; the path is bounded-checked by D-legacy and D-legacy-emul3 with steps up to 65534 words).
+//@ func normalizeOpt
+//@   property C06 C08
+//@   opt kinds=post
+//@   requires o != nil
+//@   modifies *o
+//@   ensures result == o && o.InnerPrefix != nil && o.LeafPrefix != nil && o.DedupValue != nil
+//@   ensures old(o.InnerPrefix) == nil && (old(o.Complete) == nil) ==> !*o.InnerPrefix
+
+//@ func before000510ToNewChildrenArray
+//@   property C06
+//@   opt kinds=pre(getStepBefore000510)
+//@   opt stable=arr_ok
+//@   requires st != nil && ch != nil && steps != nil && lvs != nil && arr_ok(&steps.Base, 2) && len(steps.Bitmaps) <= 100000000
+//@   loop 1 invariant 0 <= nextOldID && 0 <= newid
+//@   loop 2 invariant 0 <= nextOldID && 0 <= newid
 
 //@ func (*SlimTrie).Unmarshal
 //@   property C05 C07 C20
@@ -632,6 +662,7 @@ func lemmaTypedGettersAgreeOnFound(st *SlimTrie, key string) (bool, bool, bool, 
 //@   opt conv=exact
 //@   requires steps != nil && arr_ok(&steps.Base, 2) && 0 <= nid && len(steps.Bitmaps) <= 100000000
 //@   ensures !(int(nid)/64 < len(steps.Bitmaps) && bitat(steps.Bitmaps, nid) == 1) ==> result == 0
+//@   ensures 0 <= result && result <= 262140 && result%4 == 0
 //@   ensures int(nid)/64 < len(steps.Bitmaps) && bitat(steps.Bitmaps, nid) == 1 && le16(steps.Elts, 2*arr_pos(&steps.Base, int(nid))) != u16(0) ==>
 //@       int(result) == 4*(int(le16(steps.Elts, 2*arr_pos(&steps.Base, int(nid)))) - 1)
 
